@@ -184,6 +184,12 @@ func ExecPlan(t *testing.T, h Harness, p *Plan, keepTrace bool) (*Result, *Run) 
 			synctest.Test(t, func(t *testing.T) {
 				defer func() {
 					if r := recover(); r != nil {
+						if e, ok := r.(EndPlan); ok {
+							// the harness ended the plan on purpose (it has said why
+							// with a probe or a violation); what was recorded stands
+							run.Ev("sim", "plan_ended", "%s", e.Why)
+							return
+						}
 						errText = fmt.Sprintf("panic in plan root: %v\n%s", r, debug.Stack())
 					}
 				}()
